@@ -1052,11 +1052,10 @@ def rule_match(ctx):
            "primaries without partner are omitted (`if matches`)", node=y, func=f)
     # conversion of both lists to the same integer unit
     conv = {}
-    for nm in set(n.id for n in ast.walk(trees[0].args[0]) if isinstance(n, ast.Name)) | \
-            set(n.id for n in ast.walk(queries[0].args[0]) if isinstance(n, ast.Name)):
-        r = flow.single_def_value(nm, trees[0])
-        if r:
-            conv[nm] = [c.args[0].value for c in calls_in(r[0], "astype") if c.args and isinstance(c.args[0], ast.Constant)]
+    for role, expr, at_ in (("tree", trees[0].args[0], trees[0]), ("query", queries[0].args[0], queries[0])):
+        full = flow.resolve(expr, at=at_, depth=5, stop=(L1, L2))
+        conv[role] = [c.args[0].value for c in ast.walk(full) if isinstance(c, ast.Call) and isinstance(c.func, ast.Attribute) and c.func.attr == "astype"
+                      and c.args and isinstance(c.args[0], ast.Constant)]
     vals = list(conv.values())
     ctx.ob("FileSet.match.units", len(vals) == 2 and vals[0] == vals[1] and vals[0], "astype chains: %s" % conv,
            "both coverage arrays are converted to the same integer time unit", node=trees[0], func=f)
